@@ -70,6 +70,9 @@ def blocks_for_fn(unit, f, all_texts):
 
 def fn_was_changed(unit, f):
     """True when some source item that the Verus function name f can denote differs from the template"""
+    # a changed constant or type definition is visible to every function of the unit
+    if any(it['kind'] != 'fn' and it['status'] != 'identical' for it in unit.items):
+        return True
     segs = f.split('::')
     fname = segs[-1]
     tname = segs[-2] if len(segs) > 1 and '%' not in segs[-2] else None
